@@ -1,7 +1,7 @@
 SPECIFICATION Spec
 CONSTANTS
   Thr = {t1, t2}
-  NObj = 2
+  NObj = 1
   NCell = 1
   NWCell = 1
   Fld = {1}
@@ -9,7 +9,7 @@ CONSTANTS
   M = 16
   InitEp = {0}
   MaxEp = 4
-  MaxOps = 4
+  MaxOps = 3
   MaxDepth = 3
   ExpAge = 3
   CasAge = 3
